@@ -84,6 +84,49 @@ if _seed:
 '''
 
 
+class IntrospectionEndpoint:
+    """A loopback HTTP endpoint answering introspection queries from a schema with graphql-core (the generator subprocesses post to it).
+    `legacy`: the server predates @specifiedBy / @oneOf / @deprecated on input values and does not list those directives."""
+
+    def __init__(self, sdl: str, legacy: bool):
+        import http.server
+        import threading
+
+        from graphql import build_schema, graphql_sync
+        schema = build_schema(sdl)
+        outer = self
+        self.requests = 0
+
+        class H(http.server.BaseHTTPRequestHandler):
+            def do_POST(self):  # noqa: N802
+                n = int(self.headers.get("content-length") or 0)
+                body = json.loads(self.rfile.read(n) or b"{}")
+                res = graphql_sync(schema, body.get("query") or "")
+                data = res.data
+                if legacy and data and "__schema" in data:
+                    data = json.loads(json.dumps(data))
+                    data["__schema"]["directives"] = [d for d in data["__schema"]["directives"] if d["name"] not in ("specifiedBy", "oneOf")]
+                out = json.dumps({"data": data} if not res.errors else {"errors": [{"message": e.message} for e in res.errors]}).encode()
+                outer.requests += 1
+                self.send_response(200)
+                self.send_header("Content-Type", "application/json")
+                self.send_header("Content-Length", str(len(out)))
+                self.end_headers()
+                self.wfile.write(out)
+
+            def log_message(self, *a):
+                pass
+
+        self.server = http.server.ThreadingHTTPServer(("127.0.0.1", 0), H)
+        self.url = "http://127.0.0.1:%d/graphql" % self.server.server_address[1]
+        self.thread = threading.Thread(target=self.server.serve_forever, daemon=True)
+        self.thread.start()
+
+    def close(self):
+        self.server.shutdown()
+        self.server.server_close()
+
+
 def run_generation(workdir: Path, strategy: str, hashseed: str, glob_shuffle: Optional[int] = None) -> Tuple[int, str]:
     env = dict(os.environ)
     env["PYTHONHASHSEED"] = hashseed
@@ -104,9 +147,11 @@ def lay_out(workdir: Path, sdl_defs: List[str], query_defs: List[str], cfg: Dict
     """Write inputs. order_seed None: single files; else: directories whose files are created in a seeded order."""
     workdir.mkdir(parents=True, exist_ok=True)
     c = dict(cfg)
+    remote = bool(c.get("remote_schema_url"))
     if order_seed is None:
-        (workdir / "schema.graphql").write_text("\n\n".join(sdl_defs) + "\n")
-        c["schema_path"] = "schema.graphql"
+        if not remote:
+            (workdir / "schema.graphql").write_text("\n\n".join(sdl_defs) + "\n")
+            c["schema_path"] = "schema.graphql"
         if strategy == "client":
             (workdir / "queries.graphql").write_text("\n\n".join(query_defs) + "\n")
             c["queries_path"] = "queries.graphql"
@@ -132,7 +177,8 @@ def lay_out(workdir: Path, sdl_defs: List[str], query_defs: List[str], cfg: Dict
             p.write_text("\n\n".join(ds) + "\n")
             t = 1_600_000_000 + rng.randrange(0, 10_000_000)
             os.utime(p, (t, t))
-        c["schema_path"] = "schema_dir"
+        if not remote:
+            c["schema_path"] = "schema_dir"
         if strategy == "client":
             c["queries_path"] = "queries_dir"
     (workdir / "pyproject.toml").write_text(toml.dumps({"tool": {"ariadne-codegen": c}}))
@@ -190,6 +236,18 @@ def one_case(case: Dict[str, Any]) -> Dict[str, Any]:
     base = Path(tempfile.mkdtemp(prefix="vf-c10-"))
     digests: Dict[str, Dict[str, str]] = {}
     logs: Dict[str, str] = {}
+    endpoint = None
+    if case.get("remote"):
+        # the schema comes from a remote endpoint (loopback): what the endpoint lists, and in which order, is one more input whose handling must not depend on the hash seed
+        try:
+            endpoint = IntrospectionEndpoint("\n\n".join(sdl_defs) + "\n", legacy=(case["remote"] == "legacy"))
+            cfg["remote_schema_url"] = endpoint.url
+            feats.add("source.remote." + case["remote"])
+            out["feats"] = sorted(feats)
+        except Exception as e:  # noqa: BLE001
+            out["status"] = "inconclusive"
+            out["note"] = "loopback endpoint unavailable: %s" % e
+            return out
     try:
         variants: List[Tuple[str, Optional[int], str]] = [("seed0", None, "0"), ("seed1", None, "1"), ("seed2", None, "2"), ("seed4242", None, "4242")]
         variants += [("seedrandom", None, "random")]
@@ -255,6 +313,9 @@ def one_case(case: Dict[str, Any]) -> Dict[str, Any]:
         if out["violations"]:
             out["status"] = "violated"
     finally:
+        if endpoint is not None:
+            out["stats"]["remote_introspection_requests"] = endpoint.requests
+            endpoint.close()
         shutil.rmtree(base, ignore_errors=True)
     return out
 
@@ -280,6 +341,8 @@ def run(tier: str, seed: int) -> int:
                 kw["dirty"] = sorted(set(kw["dirty"]) | {"schema.force_scalar"})
         else:
             kw["target"] = ["schema_out.py", "schema_out.graphql", "schema_out.gql"][i % 3]
+        if i % 10 == 9 or i % 12 == 5:
+            kw["remote"] = "legacy" if (i // 2) % 2 == 0 else "full"
         c = cw.make_case(seed, i, **kw)
         c["dirty"] = kw["dirty"]
         if strategy == "client" and i % 4 == 2:
